@@ -221,11 +221,11 @@ func Run(c *vk.Ctx, scs []Scenario, cfg Config) {
 			}
 			for i := 0; i < 3; i++ {
 				r := vsched.Run(choices, cfg.MaxPoints, sc.Body)
-				k, m := "", ""
-				if sc.Oracle != nil {
-					k, m = sc.Oracle(r)
+				var ks2 []string
+				for _, v := range verdicts(sc, cfg, r) {
+					ks2 = append(ks2, v[0])
 				}
-				fmt.Printf("INFO replay %d: points=%d deadlock=%v diverged=%q races=%v oracle=%s %s\n", i, len(r.Points), r.Deadlock, r.Diverged, r.Races, k, m)
+				fmt.Printf("INFO replay %d: points=%d deadlock=%v diverged=%q races=%v violated=%v\n", i, len(r.Points), r.Deadlock, r.Diverged, r.Races, ks2)
 				for _, l := range r.Log {
 					fmt.Printf("INFO    %s\n", l)
 				}
